@@ -217,8 +217,12 @@ def camxspecs(draw, formats=ALL_FORMATS, max_n=5, max_nz=5, max_steps=4,
             # initial-condition files hold one time
             s['nsteps'] = 1
             s['start'] = draw(start_dates(s['step_h']))
+        # 60 characters kept verbatim: leading / inner / trailing blanks,
+        # empty and full field
         s['note'] = draw(st.sampled_from([
-            'CAMx test', '', 'x' * 60, 'a note, with punctuation -- 5.40']))
+            'CAMx test', '', 'x' * 60, 'a note, with punctuation -- 5.40',
+            '   leading blanks', 'two  inner   blanks  and a tail   ',
+            ' ' * 59 + 'z', ' x']))
         s['itzon'] = draw(st.sampled_from([0, 0, 5, 6, 8, -1]))
         s['proj'] = draw(projections())
     if fmt == 'wind':
@@ -230,9 +234,16 @@ def camxspecs(draw, formats=ALL_FORMATS, max_n=5, max_nz=5, max_steps=4,
             # is also a whole number of 5-variable steps is indistinguishable
             # by construction -> not generated
             s['nvar'] = 5
+        # the descriptor field has 20 characters, kept verbatim (shorter
+        # texts are blank padded to the field)
         s['desc'] = draw(st.sampled_from(['CAMx_V4.3 CLOUD_RAIN',
                                           'CAMx_V4.2 CLOUD_RAIN',
-                                          'cloud rain test file']))
+                                          'cloud rain test file',
+                                          'CAMx CLOUD_RAIN     ',
+                                          '  CLDRAIN v5        ',
+                                          '   padded both ways ',
+                                          'short', '', ' ' * 19 + 'x',
+                                          'a  b   c']))
     s['payload'] = draw(payloads())
     return dict(s)
 
